@@ -23,9 +23,14 @@ func init() {
 		Arity(c, "R-ARITY", libPkgs(c))
 		// the typeclass TupleN families: routing is forced by types, use and order of the component instances is not
 		tc := []*packages.Package{c.Pkg("eq"), c.Pkg("ord"), c.Pkg("hash"), c.Pkg("monoid"), c.Pkg("clone")}
-		Rel(c, "R-REL", tc, func(p *packages.Package, fd *ast.FuncDecl, fn *types.Func) bool { return famRe.MatchString(fd.Name.Name) }, instanceParam, 800)
+		Rel(c, "R-REL", tc, func(p *packages.Package, fd *ast.FuncDecl, fn *types.Func) bool {
+			return famRe.MatchString(fd.Name.Name)
+		}, instanceParam, 800)
 		Mirror(c, "R-MIRROR", tc, typeclassBinMethods, false, nil, 150)
 		Lex(c, "R-LEX", []*packages.Package{c.Pkg("ord")})
+		// Combine is not commutative: the N-ary instance keeps the operand order at every position (monoid.Dual is the one reverser)
+		Mirror(c, "R-COMBINE-ORDER", []*packages.Package{c.Pkg("monoid"), c.Pkg("semigroup")}, map[string]bool{"Combine": true}, true,
+			func(bc binClosure) bool { return bc.fb.Decl != nil && bc.fb.Decl.Name.Name == "Dual" }, 25)
 	})
 }
 
